@@ -16,7 +16,7 @@ EDITS = [
     'rename_table', 'move_schema', 'rename_column', 'rename_enum', 'retype_column', 'set_pk', 'set_default', 'set_note', 'set_alias',
     'flip_ref_kind', 'toggle_ref_inline', 'name_ref', 'add_column', 'add_index', 'add_enum_item', 'remove_index', 'rename_target_table',
     'rename_ref_column', 'rename_enum_item', 'unset_flags', 'retype_to_enum', 'set_table_note',
-    'm2m_inline_on', 'm2m_to_many_to_one', 'kind_to_m2m',
+    'm2m_inline_on', 'm2m_to_many_to_one', 'kind_to_m2m', 'add_twin_index', 'remove_last_index', 'retype_ref_column',
 ]
 
 # independent record of what the edits intend for each reference: (kind, inline flag as last assigned)
@@ -113,6 +113,14 @@ def _apply(db, op, nm, step):
         r2.type = '>'
     elif op == 'kind_to_m2m':
         r0.type = '<>'
+    elif op == 'add_twin_index':
+        t1.add_index(Index([t1.columns[2]], unique=True, name='ix1'))     # equal to the first index of t1
+    elif op == 'remove_last_index':
+        if t1.indexes:
+            t1.delete_index(len(t1.indexes) - 1)
+    elif op == 'retype_ref_column':
+        t1.columns[0].type = 'bigint'
+        t2.schema = 'store'
 
 
 def _track(intent, op):
@@ -142,12 +150,17 @@ def edits(D, first=-1, K=1, thorough_elements=False):
 
     def run(a):
         db = _base()
+        db.sql, db.dbml                 # a first rendering before any edit
         nm = text_of(a, 'n', K)
         seq = []
         intent = [list(x) for x in REF0]
         for step in range(D):
             code = first if (step == 0 and first >= 0) else a[f'o{step}']
             seq.append(EDITS[code])
+            if step > 0:
+                db.sql, db.dbml          # renderings between edits must leave nothing behind
+                for r in db.refs:
+                    r.sql
             _apply(db, EDITS[code], nm, step)
             _track(intent, EDITS[code])
         db._vp_intent = intent
